@@ -81,11 +81,11 @@ func c24Configs() []*Config {
 	rej.AfterClose = false
 	cfgs := []*Config{&data, &dl, &rej}
 	if vr.Thorough() {
-		data.Depth, dl.Depth, rej.Depth = 11, 9, 12
+		data.Depth, dl.Depth, rej.Depth = 12, 11, 13
 		w3 := base
-		w3.Name, w3.W, w3.WriteSizes, w3.ReadSizes, w3.MaxBytes, w3.Preamble, w3.Depth = "W3-data-and-closes-established", 3, []int{0, 1, 4}, []int{0, 1, 4}, 4, established, 7
+		w3.Name, w3.W, w3.WriteSizes, w3.ReadSizes, w3.MaxBytes, w3.Preamble, w3.Depth = "W3-data-and-closes-established", 3, []int{0, 1, 4}, []int{0, 1, 4}, 4, established, 8
 		cross := base
-		cross.Name, cross.Opens, cross.Accepts, cross.Depth = "W2-two-streams-opened-from-both-sides", [2]int{1, 1}, [2]int{1, 1}, 9
+		cross.Name, cross.Opens, cross.Accepts, cross.Depth = "W2-two-streams-opened-from-both-sides", [2]int{1, 1}, [2]int{1, 1}, 11
 		cross.WriteSizes, cross.ReadSizes, cross.Kinds, cross.AfterClose = []int{0, 3}, []int{0, 3}, []string{"close", "closeWrite"}, false
 		cfgs = append(cfgs, &w3, &cross)
 	}
@@ -126,10 +126,15 @@ func c25Configs() []*Config {
 	bp.Kinds, bp.DeadlineKinds = []string{"wdl"}, []int{0, 1}
 	cfgs := []*Config{&unb, &oa, &hol, &bp}
 	if vr.Thorough() {
-		unb.Depth, oa.Depth, hol.Depth, bp.Depth = 10, 14, 14, 24
+		unb.Depth, oa.Depth, hol.Depth, bp.Depth = 12, 16, 16, 24
+		unb.MaxBytes, hol.MaxBytes, bp.MaxBytes = 6, 6, 6
 		scratch := base
-		scratch.Name, scratch.Depth = "W2-one-stream-from-scratch-all-kinds", 9
+		scratch.Name, scratch.Depth = "W2-one-stream-from-scratch-all-kinds", 11
 		scratch.Kinds, scratch.DeadlineKinds = []string{"close", "rdl", "wdl", "closeMux", "cancel"}, []int{1}
+		// Window 3, both sides write and read, deadlines on both sides.
+		w3 := unb
+		w3.Name, w3.W, w3.WriteSizes, w3.ReadSizes, w3.Writers, w3.Deadliners, w3.Depth = "W3-blocked-calls-both-directions", 3, []int{4}, []int{4}, both, both, 8
+		cfgs = append(cfgs, &w3)
 		cfgs = append(cfgs, &scratch)
 	}
 	return cfgs
